@@ -199,6 +199,7 @@ def run_case(case):
             except Exception:
                 pass
     HandlerCollection.current.set(None)
+    teardown = ""
     for fn in FNS.values():
         st = getattr(fn, "__ptera_stack__", None)
         if st is not None:
@@ -208,7 +209,10 @@ def run_case(case):
                 st._apply(fn)
             except AttributeError:
                 pass
-    return {"id": case["id"], "steps": steps}
+            except Exception as ex:
+                # going back to the original code (no probe left) is something the tree must always be able to do
+                teardown = type(ex).__name__
+    return {"id": case["id"], "steps": steps, "teardown": teardown}
 
 
 def main():
